@@ -89,25 +89,26 @@ type Fact struct {
 }
 
 type Obligation struct {
-	Name     string
-	Kind     string
-	Func     string
-	Props    []string
-	Guard    string
-	Goal     string
-	NFacts   int // number of facts in context
-	Pos      string
-	Src      string
-	MustFail bool
-	Cover    bool // cover query: expected sat
-	Skolems  []string
-	fullOnly bool
-	NCands   int
-	Block    *ssa.BasicBlock
-	fc       *FnCtx
-	Result   *SolverResult
-	All      []SolverResult
-	File     string
+	Name       string
+	Kind       string
+	Func       string
+	Props      []string
+	Guard      string
+	Goal       string
+	NFacts     int // number of facts in context
+	Pos        string
+	Src        string
+	MustFail   bool
+	Cover      bool // cover query: expected sat
+	Restricted bool // cover query of a contract marked `restricted`
+	Skolems    []string
+	fullOnly   bool
+	NCands     int
+	Block      *ssa.BasicBlock
+	fc         *FnCtx
+	Result     *SolverResult
+	All        []SolverResult
+	File       string
 }
 
 type FnCtx struct {
